@@ -25,7 +25,9 @@ Allowed(sc, out) ==
   IF out = Refuse THEN TRUE                       \* refusing is always safe; progress is not part of C16
   ELSE /\ ~MustRefuse(sc)
        /\ out \in Components(sc)
-       /\ (Req(sc.op) # {} /\ sc.enforce => out \in Qualified(sc))
+       \* a component whose latest self-signature grants the capability is used whenever there is one; switching enforcement off only
+       \* lifts the refusal when there is none
+       /\ (Req(sc.op) # {} /\ (sc.enforce \/ Qualified(sc) # {}) => out \in Qualified(sc))
        /\ (Req(sc.op) = {} /\ sc.op # "decrypt" => out = 0)
 \* ---- algorithm spec: KeyAction.usage / check_attributes as coded (pgpy/decorators.py) ----
 \* ReadLatest = FALSE models the code as found: a subkey's flags were read from its OLDEST binding.
